@@ -36,6 +36,7 @@ type Obligation struct {
 }
 
 type Exec struct {
+	collect *[]string // when set, havocComp records component names instead of havocing
 	P    *Prog
 	root *ssa.Function
 	rct  *Contract
@@ -634,7 +635,10 @@ func (ex *Exec) buildNames(fr *Frame) {
 					if u, isLoad := x.X.(*ssa.UnOp); isLoad && !x.IsAddr && u.Op == token.MUL {
 						// a read of an address-taken variable: the loaded value goes stale, the
 						// variable is resolved through its cell (Alloc / free variable) instead
-						continue
+						switch u.X.(type) {
+						case *ssa.Alloc, *ssa.FreeVar:
+							continue
+						}
 					}
 					fr.names[obj.Name()] = append(fr.names[obj.Name()], nameDef{b, i, x.X, x.IsAddr})
 				}
